@@ -532,3 +532,94 @@ Proof. vm_compute. reflexivity. Qed.
 Lemma non_mutating_fns_do_not_mark :
   forallb (fun r => match r with (n, m, _, _, _) => bmem n mutating_engine_fns || (m =? 0) end) engine_census = true.
 Proof. vm_compute. reflexivity. Qed.
+
+(** ================= C07: EXEC = the queued commands sent back to back ================= *)
+(** a queued command, as MULTI accepts it: first element a bulk string, not transaction
+    control, not AUTH; and not SELECT (known class select-in-multi) *)
+Definition plain_queued (parts : list frame) : bool :=
+  match parts with
+  | FBulk nm :: _ =>
+      negb (mem_name (upper (trim nm)) tx_not_queued) && negb (beq (upper (trim nm)) (bs "AUTH"))
+      && negb (beq (upper nm) (bs "SELECT"))
+  | _ => false
+  end.
+
+(** the same commands sent directly, one frame after the other, by connection [c] *)
+Fixpoint direct_run (now : Z) (s : server) (c : Z) (q : list (list frame)) (acc : list frame)
+  : list frame * server :=
+  match q with
+  | [] => (rev acc, s)
+  | parts :: r => match process_frame now s c (FArray parts) None with
+                  | (rep, s') => direct_run now s' c r (rep :: acc)
+                  end
+  end.
+
+Lemma process_frame_plain now s c cn parts :
+  zlookup c (s_conns s) = Some cn -> authed_or_open s cn = true -> c_intx cn = false ->
+  plain_queued parts = true ->
+  process_frame now s c (FArray parts) None = normal_command now s 0 (c_db cn) parts None.
+Proof.
+  intros Hc Ha Hi Hp. unfold plain_queued in Hp. destruct parts as [|first rest]; [discriminate|].
+  destruct first; try discriminate.
+  apply andb_prop in Hp as [Hp Hsel]. apply andb_prop in Hp as [Hq Hau].
+  apply negb_true_iff in Hq, Hau, Hsel.
+  unfold process_frame. rewrite Hc.
+  assert (Hg : (match s_password s with Some _ => true | None => false end) && negb (c_auth cn) = false).
+  { unfold authed_or_open in Ha. destruct (s_password s); [rewrite Ha|]; reflexivity. }
+  rewrite Hg.
+  assert (Hm : forall x, bmem x tx_not_queued = true -> beq (upper (trim b)) x = false).
+  { intros x Hx. destruct (beq (upper (trim b)) x) eqn:E; [|reflexivity]. apply beq_eq in E. subst x.
+    unfold mem_name in Hq. congruence. }
+  rewrite (Hm (bs "MULTI") eq_refl), (Hm (bs "EXEC") eq_refl), (Hm (bs "DISCARD") eq_refl),
+          (Hm (bs "WATCH") eq_refl), (Hm (bs "UNWATCH") eq_refl), Hau, Hi. cbn [andb].
+  apply conn_id_irrelevant. unfold cmd_name. exact Hsel.
+Qed.
+
+Lemma normal_command_0_keeps now s dbi parts r s' c cn :
+  normal_command now s 0 dbi parts None = (r, s') -> c <> 0 ->
+  zlookup c (s_conns s) = Some cn ->
+  zlookup c (s_conns s') = Some cn /\ s_password s' = s_password s.
+Proof.
+  intros H Hc Hz. split.
+  - rewrite (normal_command_conns now s 0 dbi parts None r s' H c Hc Hc). exact Hz.
+  - (* the password is never changed by a command *)
+    revert H. unfold normal_command.
+    destruct parts as [|first rest]; [intros H; inversion H; reflexivity|].
+    destruct first; try (intros H; inversion H; reflexivity).
+    set (s0 := if mem_name (upper b) write_commands then log_aof s (FBulk b :: rest) else s).
+    assert (Hp0 : s_password s0 = s_password s) by (unfold s0; destruct (mem_name (upper b) write_commands); reflexivity).
+    rewrite <- Hp0. clear Hp0.
+    destruct (beq (upper b) (bs "PING")); [intros H; inversion H; reflexivity|].
+    destruct (beq (upper b) (bs "ECHO")); [intros H; inversion H; reflexivity|].
+    destruct (beq (upper b) (bs "SELECT")).
+    { destruct rest as [|a [|? ?]]; try (intros H; inversion H; reflexivity);
+        try (destruct a; intros H; inversion H; reflexivity).
+      destruct a; try (intros H; inversion H; reflexivity).
+      destruct (parse_usize b0); [|intros H; inversion H; reflexivity].
+      destruct (16 <=? z); [intros H; inversion H; reflexivity|].
+      destruct (zlookup 0 (s_conns s0)); intros H; inversion H; reflexivity. }
+    destruct (beq (upper b) (bs "FLUSHALL")).
+    { destruct (negb (len (FBulk b :: rest) =? 1)); intros H; inversion H; reflexivity. }
+    destruct (beq (upper b) (bs "RANDOMKEY")); [intros H; inversion H; reflexivity|].
+    destruct (beq (upper b) (bs "AUTH")).
+    { intros H. destruct (auth_per_connection _ _ _ _ _ H) as (_ & _ & Hp & _). exact Hp. }
+    destruct (beq (upper b) (bs "QUIT")); [intros H; inversion H; reflexivity|].
+    destruct (beq (upper b) (bs "VERIF")); [intros H; inversion H; reflexivity|].
+    destruct (exec_db now (get_db s0 dbi) (upper b) (FBulk b :: rest) None) as [[r0 d']|];
+      intros H; inversion H; reflexivity.
+Qed.
+
+(** EXEC runs exactly what the connection would get by sending the queued commands one
+    after the other with nobody in between: same replies, same final state *)
+Theorem exec_is_back_to_back now c : forall q s cn acc,
+  c <> 0 -> zlookup c (s_conns s) = Some cn -> authed_or_open s cn = true -> c_intx cn = false ->
+  forallb plain_queued q = true ->
+  exec_queue now s (c_db cn) q acc = direct_run now s c q acc.
+Proof.
+  induction q as [|parts q IH]; intros s cn acc Hc Hz Ha Hi Hq; [reflexivity|].
+  cbn [forallb] in Hq. apply andb_prop in Hq as [Hp Hq].
+  cbn [exec_queue direct_run]. rewrite (process_frame_plain now s c cn parts Hz Ha Hi Hp).
+  destruct (normal_command now s 0 (c_db cn) parts None) as [rep s'] eqn:E.
+  destruct (normal_command_0_keeps now s (c_db cn) parts rep s' c cn E Hc Hz) as [Hz' Hpw].
+  apply IH; try assumption. unfold authed_or_open in *. rewrite Hpw. exact Ha.
+Qed.
